@@ -114,7 +114,7 @@ struct Conn {
 	uint64_t n_req_delivered = 0, n_resp_delivered = 0, n_ev_delivered = 0;
 	bool client_gone = false;               // client disconnected, died, or saw a disconnect error
 	bool server_gone = false;
-	int fc = 0;
+	int fc = 0; uint64_t fc_changes = 0;
 	unsigned auth_uid = 0, auth_gid = 0, auth_mode = 0600;
 	std::string dir;                        // /dev/shm/qb-...-XXXXXX
 	int refused = 0;
@@ -433,7 +433,7 @@ static void do_server_op(const Op &op, Conn *ctx)
 		int fc = k == 3 ? 1 : k == 4 ? 2 : 0;
 		for (size_t i = 0; i < G.conns.size(); i++) {
 			Conn &c = G.conns[i];
-			if (c.accept_ok && !c.destroyed && c.closed_calls == 0 && c.created) { if (c.fc != fc) count(p_fc_toggled); c.fc = fc; }
+			if (c.accept_ok && !c.destroyed && c.closed_calls == 0 && c.created) { if (c.fc != fc) { count(p_fc_toggled); c.fc_changes++; } c.fc = fc; }
 		}
 		break; }
 	case K_S_EVENT: {
@@ -668,7 +668,7 @@ static void client_send(ClientSt &k, const Op &op, int mode)
 	ssize_t r;
 	size_t rcap = (size_t)c.max_msg + 64;
 	uint8_t *rbuf = NULL;
-	int fc_before = c.fc;
+	int fc_before = c.fc; uint64_t fc_ch_before = c.fc_changes;
 	if (mode == 0) r = qb_ipcc_send(k.cc, heap, m.len);
 	else {
 		int niov = (int)std::max<int64_t>(1, std::min<int64_t>(4, op.a[5] > 0 ? op.a[5] : 2));
@@ -690,6 +690,11 @@ static void client_send(ClientSt &k, const Op &op, int mode)
 	free(heap);
 	ev(440 + (uint32_t)mode, c.id, r);
 	client_note_result(k, r);
+	// flow control that was on (at a level this client honours) for the whole call must have refused the send
+	if (fc_before > 0 && (uint32_t)fc_before <= k.fcmax && c.fc_changes == fc_ch_before && m.len <= c.max_msg &&
+	    ((mode != 2 && r == (ssize_t)m.len) || (mode == 2 && (r >= 0 || c.fl_req_taken))))
+		VIOL(2, "send-accepted-under-flow-control", mode == 0 ? "qb_ipcc_send" : "qb_ipcc_sendv", "client %d: send returned %zd although flow control level %d (client honours up to %u) was on for the whole call",
+		     k.idx, r, fc_before, k.fcmax);
 	bool queued = mode == 2 ? (r >= 0 || c.fl_req_taken) : (r == (ssize_t)m.len);
 	if (mode == 2 && r < 0 && !c.fl_req_taken) {
 		// the send half may have succeeded and only the receive half failed (timeout): then the request is queued.
@@ -713,6 +718,8 @@ static void client_send(ClientSt &k, const Op &op, int mode)
 		if (r >= 0) VIOL(2, "send-bad-return", "qb_ipcc_send", "client send of %u bytes returned %zd", m.len, r);
 	}
 	if (mode == 2 && r >= 0) { count(p_sendv_recv); check_out_msg(k, 1, rbuf, r, "qb_ipcc_sendv_recv"); }
+	// (C03: a witness's exchange may time out while the server is busy burying the victim - libqb also cuts the wait
+	// short after a spurious wake-up - so "served" is judged by the liveness tail: every reply must eventually arrive)
 	free(rbuf);
 }
 
@@ -832,11 +839,12 @@ static void client_main(void *arg)
 			if (want_ev && !k.saw_disconnect) client_recv(k, 2, 100);
 			if (req_pending && !want_resp && !want_ev) { struct timespec ts = { 0, round < 20 ? 5000000 : 100000000 }; simk_nanosleep(&ts, NULL); }
 		}
-		if (!ended && !failed() && which == 2 && !c.fc && !c.client_gone && !c.server_gone && !G.server_dead && !k.saw_disconnect) {
+		bool judged = which == 2 || (which == 3 && G.spec->plan.get("witness", -1) == k.idx && !G.server_will_die);
+		if (!ended && !failed() && judged && !c.fc && !c.client_gone && !c.server_gone && !G.server_dead && !k.saw_disconnect) {
 			size_t nreq = 0;
 			for (size_t n = 0; n < c.req.size(); n++) if (!c.req[n].maybe) nreq++;
 			if (nreq || !c.resp.empty() || !c.evq.empty())
-				VIOL(2, "accepted-message-never-delivered", "qb_loop_run", "client %d: after 400 fault-free rounds (about 40 s) %zu request(s), %zu response(s), %zu event(s) accepted by their sender are still undelivered",
+				VIOL(which, which == 3 ? "witness-not-served" : "accepted-message-never-delivered", "qb_loop_run", "client %d: after 400 fault-free rounds (about 40 s) %zu request(s), %zu response(s), %zu event(s) accepted by their sender are still undelivered",
 				     k.idx, nreq, c.resp.size(), c.evq.size());
 		}
 	}
@@ -1100,9 +1108,69 @@ static void gen_client_script(Rng &r, Plan &p, int task, int64_t maxm, int w, bo
 	else if (r.chance(3, 4)) p.add(task, K_C_DISCONNECT);
 }
 
+// C03 thorough tier: enumerate every crash point of fixed base scenarios (DESIGN.md C03)
+#define ENUM_KILLS 320
+#define ENUM_SCEN 5
+static uint64_t enum_space() { return 3ULL * ENUM_KILLS * ENUM_SCEN * 2 * 2; }
+
+static void gen_enum(RunSpec &spec)
+{
+	Plan &p = spec.plan;
+	uint64_t i = spec.index % enum_space();
+	int variant = (int)(i % 3); i /= 3;
+	int k = (int)(i % ENUM_KILLS); i /= ENUM_KILLS;
+	int scen = (int)(i % ENUM_SCEN); i /= ENUM_SCEN;
+	int transport = (int)(i % 2); i /= 2;
+	int victim_is_client = (int)(i % 2);
+	p.set("transport", transport);
+	p.set("nclients", 2);
+	p.set("maxm", 4096);
+	p.set("uid0", 1000); p.set("gid0", 1000); p.set("uid1", 1001); p.set("gid1", 1001);
+	p.set("kill_who", victim_is_client);
+	p.set("rate_kill", 0);
+	p.set("enum", 1);
+	p.set("scenario", scen);
+	p.set("witness", 1);
+	p.set("force_seq", variant == 0);
+	const int64_t M = 4096;
+	// victim / first client (task 1)
+	p.add(1, K_C_CONNECT, M);
+	switch (scen) {
+	case 0: p.add(1, K_C_SLEEP, 20000); break;
+	case 1: for (int n = 0; n < 3; n++) p.add(1, K_C_SENDV_RECV, 200 + 31 * n, 120 + 17 * n, 0, 0, 0, 1500); break;
+	case 2: p.add(1, K_C_SEND, 300, -1, 3, 260); p.add(1, K_C_EVENT_RECV, 500); p.add(1, K_C_EVENT_RECV, 500); break;
+	case 3: p.add(1, K_C_SENDV_RECV, 1000, 900, 0, 0, 0, -1); break;
+	default: for (int n = 0; n < 4; n++) p.add(1, K_C_SEND, 500 + 100 * n, 400, 2, 300); break;
+	}
+	// once the server is dead the client keeps calling: every call must come back, bounded
+	if (!victim_is_client) {
+		p.add(1, K_C_SENDV_RECV, 128, 64, 0, 0, 0, -1);
+		p.add(1, K_C_EVENT_RECV, -1);
+		p.add(1, K_C_RECV, 300);
+		p.add(1, K_C_SEND, 64);
+		p.add(1, K_C_EVENT_RECV, 50);
+	}
+	p.add(1, K_C_DISCONNECT);
+	// witness (task 2): must be served throughout when the victim is the other client
+	p.add(2, K_C_CONNECT, M);
+	for (int n = 0; n < 3; n++) { p.add(2, K_C_SENDV_RECV, 100 + n, 80 + n, 0, 0, 0, 2000); p.add(2, K_C_SLEEP, 3000); }
+	p.add(2, K_C_DISCONNECT);
+	spec.explicit_faults = true;
+	Fault f; f.task = victim_is_client ? 1 : 0;
+	if (victim_is_client && k >= ENUM_KILLS - 24) {
+		// every prefix of the connection request: the first send is cut after b bytes, then the process dies
+		f.kind = F_SEND_SHORT; f.idx = 0; f.arg = k - (ENUM_KILLS - 24);
+		p.set("kill_after_short", 1);
+	} else {
+		f.kind = F_KILL_BEFORE; f.idx = (uint64_t)k; f.arg = 0;
+	}
+	spec.faults.push_back(f);
+}
+
 static void gen(const char *prop, RunSpec &spec)
 {
 	int w = atoi(prop + 1);
+	if (w == 3 && prop[3] == 'E') { gen_enum(spec); return; }
 	Rng r = stream(spec.seed, "data");
 	Plan &p = spec.plan;
 	p.set("transport", r.below(2));
@@ -1220,6 +1288,7 @@ static void run(const char *prop, const RunSpec &spec)
 		proc_define(G.cl[k].spid, G.cl[k].uid, G.cl[k].gid);
 	}
 	if (which == 3) {
+		c.kill_after_short_send = (int)p.get("kill_after_short", 0);
 		G.server_will_die = !p.get("kill_who", 1);
 		c.kill_spid = p.get("kill_who", 1) ? G.cl[0].spid : G.server_spid;
 		c.rate_kill = (uint32_t)std::max<int64_t>(0, std::min<int64_t>(5000, p.get("rate_kill")));
@@ -1247,6 +1316,7 @@ static void run(const char *prop, const RunSpec &spec)
 	SchedCfg sc;
 	sched_cfg_from_seed(spec.seed, 1 + G.nclients + (which == 6 ? 1 : 0), 3000, 60000, sc);
 	sc.vtime_cap_ns = 600LL * 1000000000LL;
+	if (p.get("force_seq")) sc.strategy = ST_SEQ;
 	sched_begin(spec, sc);
 	set_time_base(1000LL * 1000000000LL, 1700000000LL * 1000000000LL);
 	task_create(G.server_spid, server_main, NULL, "server");
